@@ -253,6 +253,39 @@ async fn probe_nulllist() {
     }
 }
 
+async fn probe_sliced_null_list() {
+    for ver in [LanceFileVersion::V2_0, LanceFileVersion::V2_1, LanceFileVersion::V2_2] {
+        for (name, valid, lens, slice) in [
+            ("unsliced [1,2],NULL(empty),[3]", vec![true, false, true], vec![2usize, 0, 1], None),
+            ("row1 of [1,2],NULL(empty),[3]", vec![true, false, true], vec![2usize, 0, 1], Some((1usize, 1usize))),
+            ("row1 of [1,2],NULL(garbage 2),[3]", vec![true, false, true], vec![2usize, 2, 1], Some((1, 1))),
+            ("row0 of NULL(garbage 2),[3]", vec![false, true], vec![2usize, 1], Some((0, 1))),
+            ("row0 of NULL(empty),[3]", vec![false, true], vec![0usize, 1], Some((0, 1))),
+            ("rows1-2 of [1,2],NULL,[3]", vec![true, false, true], vec![2usize, 0, 1], Some((1, 2))),
+            ("single NULL(garbage 2) unsliced", vec![false], vec![2usize], None),
+        ] {
+            let total: usize = lens.iter().sum();
+            let child = Int32Array::from((0..total as i32).collect::<Vec<_>>());
+            let l = ListArray::new(
+                Arc::new(Field::new("item", DataType::Int32, true)),
+                OffsetBuffer::from_lengths(lens.clone()),
+                Arc::new(child),
+                Some(NullBuffer::from(valid.clone())),
+            );
+            let schema = Arc::new(Schema::new(vec![
+                Field::new("id", DataType::Int64, false),
+                Field::new("l", l.data_type().clone(), true),
+            ]));
+            let b = RecordBatch::try_new(schema, vec![ids(0, valid.len()), Arc::new(l)]).unwrap();
+            let b = match slice {
+                Some((o, n)) => b.slice(o, n),
+                None => b,
+            };
+            roundtrip(name, vec![b], ver, |_| {}).await;
+        }
+    }
+}
+
 pub fn run(args: &Args) -> i32 {
     crate::util::install_quiet_panic_hook();
     let rt = tokio::runtime::Builder::new_current_thread().enable_all().build().unwrap();
@@ -262,6 +295,7 @@ pub fn run(args: &Args) -> i32 {
             "list" => probe_list_batches().await,
             "itemnull" => probe_list_itemnull().await,
             "nulllist" => probe_nulllist().await,
+            "slicednull" => probe_sliced_null_list().await,
             "itemnull_min" => probe_itemnull_min().await,
             other => println!("unknown probe {other}"),
         }
